@@ -13,3 +13,10 @@ func TestC02(t *testing.T) {
 	defer r.Write()
 	vtx.Explore(t, prof.Relay("c02", map[string]bool{"leak-p2c": true}), r)
 }
+
+// TestC02BFS: merged breadth-first search to depth 7 (thorough tier only).
+func TestC02BFS(t *testing.T) {
+	r := rep.New("C02")
+	defer r.Write()
+	vtx.ExploreBFS(t, prof.Relay("c02-bfs", map[string]bool{"leak-p2c": true}), r, 7)
+}
